@@ -28,7 +28,7 @@ ANCHORS = ["AND._evaluate__", "Union._evaluate__", "ElseIf._evaluate__", "Not._e
            "QueryObjectDescriptor.evaluate_selected_variables", "QueryObjectDescriptor.get_constrained_values"]
 
 FAMILIES = [("core", 30), ("rich", 25), ("flat", 8), ("sub", 6), ("E1", 6), ("E2", 5), ("forall", 6),
-            ("forall0", 1), ("msb", 6), ("msu", 2), ("core_ne", 5), ("fnfalsy", 1), ("forallz", 1), ("E2z", 1)]
+            ("forall0", 1), ("msb", 6), ("msu", 2), ("core_ne", 5), ("fnfalsy", 1), ("forallz", 1), ("E2z", 1), ("porder", 4)]
 
 
 def plan(tier):
@@ -65,6 +65,8 @@ def gen_family(rng, fam):
         return GEN.gen_forall(rng)
     if fam == "forall0":
         return GEN.gen_forall(rng, True)
+    if fam == "porder":
+        return GEN.gen_partial_order(rng)
     if fam == "fnfalsy":
         return GEN.gen_fnfalsy(rng)
     if fam == "forallz":
